@@ -161,6 +161,7 @@ class sptensor:
             shape = parse_shape(shape)
 
         if subs.size > 0:
+            assert np.all(subs >= 0), "Subscripts must be non-negative"
             assert subs.shape[1] == len(shape) and np.all(
                 (np.max(subs, axis=0) + 1) <= shape
             ), (
